@@ -31,8 +31,8 @@ def main(argv):
         if argv[1] == "--replay":
             rec = json.load(open(argv[2]))
             case = rec["case"]
-            a = mod.replay(case)
-            b = mod.replay(case)
+            a = core.run_replay(mod, case)
+            b = core.run_replay(mod, case)
             ka, kb = sorted(v["key"] for v in a), sorted(v["key"] for v in b)
             if ka != kb:
                 raise core.HarnessError("replay not deterministic: %r vs %r" % (ka, kb))
